@@ -563,6 +563,64 @@ impl<'a> World<'a> {
         side.max_wnd = side.max_wnd.max(h.wnd as u64);
     }
 
+    /// RFC 9293 3.10.7.4 on SND.WND / SND.WL1 / SND.WL2, checked on the TCB's own variables
+    /// for every segment that was processed on its own (nothing waiting in or taken from the
+    /// reordering queue): the three variables change together and only to the values of the
+    /// segment just processed; the acknowledgment that completes the handshake sets them;
+    /// an in-order segment that advances SND.UNA and is not older than (WL1, WL2) sets them.
+    fn check_window_variables(&mut self, to: usize, pre: &TcbSnapshot, post: &TcbSnapshot, h: &TcpHeader) {
+        if pre.incoming_segments != 0 || post.incoming_segments != 0 || self.sides[to].tcb.is_none() {
+            return;
+        }
+        let le = |a: u32, b: u32| (b.wrapping_sub(a) as i32) >= 0;
+        let lt = |a: u32, b: u32| (b.wrapping_sub(a) as i32) > 0;
+        let was = (pre.snd_wnd, pre.snd_wl1, pre.snd_wl2);
+        let now = (post.snd_wnd, post.snd_wl1, post.snd_wl2);
+        let seg = (h.wnd, h.seq, h.ack);
+        let synced = |s: State| matches!(s, State::Established | State::FinWait1 | State::FinWait2 | State::CloseWait | State::Closing | State::LastAck | State::TimeWait);
+        if now != was && now != seg && synced(post.state) {
+            self.violate(
+                "send-window",
+                "changed-to-something-else",
+                format!("side {to} ({:?} -> {:?}): SND.WND/WL1/WL2 went from {was:?} to {now:?} while processing a segment with wnd/seq/ack {seg:?}", pre.state, post.state),
+            );
+            return;
+        }
+        let plain_ack = h.ctl.ack() && !h.ctl.rst() && !h.ctl.syn();
+        // (an unacceptable acknowledgment in SYN-RECEIVED is answered with a reset, but this
+        // stack goes on to process the segment's FIN; that is not a completed handshake)
+        if pre.state == State::SynReceived && synced(post.state) && plain_ack && lt(pre.snd_una, h.ack) && le(h.ack, pre.snd_nxt) {
+            self.out.count("probe_handshake_completed_by_a_directly_processed_ack");
+            if now != seg {
+                self.violate(
+                    "send-window",
+                    "not-set-when-the-handshake-completed",
+                    format!("side {to}: the acknowledgment that completed the handshake advertised wnd/seq/ack {seg:?}, the connection entered {:?} with SND.WND/WL1/WL2 {now:?}", post.state),
+                );
+            }
+            return;
+        }
+        let data_states = matches!(pre.state, State::Established | State::FinWait1 | State::FinWait2 | State::CloseWait);
+        if data_states
+            && synced(post.state)
+            && plain_ack
+            && h.seq == pre.rcv_nxt
+            && pre.rcv_wnd > 0
+            && lt(pre.snd_una, h.ack)
+            && le(h.ack, pre.snd_nxt)
+            && (lt(pre.snd_wl1, h.seq) || (pre.snd_wl1 == h.seq && le(pre.snd_wl2, h.ack)))
+        {
+            self.out.count("probe_window_update_due");
+            if now != seg {
+                self.violate(
+                    "send-window",
+                    "update-skipped",
+                    format!("side {to} ({:?}): an in-order segment with wnd/seq/ack {seg:?} advanced SND.UNA and is newer than WL1/WL2 {:?}, but SND.WND/WL1/WL2 are {now:?}", pre.state, (pre.snd_wl1, pre.snd_wl2)),
+                );
+            }
+        }
+    }
+
     /// A segment reaches side `to` (the demux stub of `tcp.rs`).
     fn arrive(&mut self, to: usize, seg: Segment) {
         if self.dead {
@@ -583,9 +641,14 @@ impl<'a> World<'a> {
         if self.sides[to].tcb.is_some() {
             self.note_arrival(to, &seg.header);
             let before = state_code(self.status(to));
+            let pre = self.snap(to);
+            let hdr = seg.header;
             let r = self.call(to, CallKind::Seg, "segment_arrives", |t| {
                 t.segment_arrives(seg)
             });
+            if let (Some(pre), Some(post)) = (pre, self.snap(to)) {
+                self.check_window_variables(to, &pre, &post, &hdr);
+            }
             match r {
                 Some(SegmentArrivesResult::Close) => {
                     // the session task ends without another segments() call;
